@@ -1,0 +1,39 @@
+//go:build verif
+
+// Contracts for the acv verifier (/verif). Comment-only file: no executable code.
+
+package base
+
+//@ func (ctx *AccessContext) GetClientID() (id []byte)
+//@   props C02 C14
+//@   safety
+//@   ensures sameslice(id, ctx.clientID)
+//@   modifies nothing
+
+//@ func (ctx *AccessContext) SetClientID(clientID []byte)
+//@   props C02 C14
+//@   safety
+//@   ensures sameslice(ctx.clientID, clientID)
+//@   modifies ctx
+
+//@ func (ctx *AccessContext) OnNewClientID(clientID []byte)
+//@   props C02 C14
+//@   safety
+//@   ensures sameslice(ctx.clientID, clientID)
+//@   modifies ctx
+
+//@ func NewAccessContext(options ...AccessContextOption) (ac *AccessContext)
+//@   props C02 C14
+//@   safety
+//@   ensures ac != nil
+
+//@ func NewDataProcessorContext(keystore keystore.DataEncryptorKeyStore) (c *DataProcessorContext)
+//@   props C02 C14
+//@   safety
+//@   ensures c != nil && fresh(c) && c.Keystore == keystore
+//@   modifies nothing
+
+//@ func AccessContextFromContext(ctx context.Context) (ac *AccessContext)
+//@   props C02 C14
+//@   safety
+//@   modifies nothing
